@@ -226,15 +226,28 @@ fn proof_workloads(d: &mut Dump) {
             (Fd::F64, Hs::Blake3_256, FieldExtension::Quadratic, 11, 2, 5, 4, false, 0), // ce domain 8192 rows
             (Fd::F64, Hs::Blake3_256, FieldExtension::None, 12, 1, 3, 2, false, 0),    // ce domain 8192, lde 8192
             (Fd::F128, Hs::Blake3_256, FieldExtension::Quadratic, 10, 4, 2, 8, true, 0),
+            // fragmented constraint evaluation (ce domain of 8192 rows) of main AND auxiliary rules that read
+            // periodic columns with long and short cycles (configs 9.. get periodic columns, see below)
+            (Fd::F64, Hs::Blake3_256, FieldExtension::Quadratic, 12, 2, 2, 2, true, 0),
+            (Fd::F128, Hs::Blake3_256, FieldExtension::None, 11, 3, 3, 4, true, 0),
+            (Fd::F62, Hs::Blake3_256, FieldExtension::Cubic, 13, 2, 2, 2, true, 0),    // ce domain 16384
         ]
     };
     for (k, (fd, hs, ext, log_n, width, deg, blowup, aux, grind)) in cfgs.into_iter().enumerate() {
         let name = format!("proof#{k} {fd:?}/{hs:?}/{ext:?} n=2^{log_n} width={width} degree={deg} blowup={blowup} aux={aux} grinding={grind}");
         let mut rng = d.rng(&name);
+        let n = 1usize << log_n;
+        let periodic: Vec<Per> = if k >= 9 || (d.small && k == 2) {
+            // cycle lengths n/4 (longer than n / threads for most pools), n and 8
+            [n / 4, n, 8].iter().enumerate().map(|(q, c)| Per::Values((0..*c).map(|i| (1 + (i * (q + 3) + q) % 997) as u32).collect())).collect()
+        } else {
+            vec![]
+        };
+        let nper = periodic.len();
         let shape = Shape {
             log_n,
-            rules: (0..width).map(|c| Rule::Pow { d: deg, a: 1 + (c as u32 % 3), b: 1, src: (c + 1) % width, per: None }).collect(),
-            periodic: vec![],
+            rules: (0..width).map(|c| Rule::Pow { d: deg, a: 1 + (c as u32 % 3), b: 1, src: (c + 1) % width, per: if nper > 0 { Some(c % nper) } else { None } }).collect(),
+            periodic,
             exemptions: 1 + k % 2,
             asserts: vec![ASpec { col: 0, kind: AKind::Single(0) }, ASpec { col: width - 1, kind: AKind::Single((1 << log_n) - 1) }],
             aux: if aux { Some(AuxShape { cols: 3, rands: 2, lagrange: k % 2 == 0 }) } else { None },
